@@ -5,6 +5,7 @@ import (
 	"go/token"
 	"go/types"
 	"sort"
+	"strconv"
 	"strings"
 
 	"golang.org/x/tools/go/ssa"
@@ -545,5 +546,40 @@ func pxMap(sig string, m map[string]string) map[string]string {
 	for k, v := range m {
 		out[k] = px(sig, v)
 	}
+	return out
+}
+
+// leavesCx: leaves(v) for a value seen inside a helper reached through the call chain cx, named by
+// the positions of the ROOT function: a leaf rooted at parameter #i of the helper is replaced by the
+// leaves of the i-th argument of the call that entered it (with the field path kept).
+func leavesCx(v ssa.Value, cx *vctx) []string {
+	ls := leaves(v)
+	if cx == nil || cx.site == nil {
+		return ls
+	}
+	set := map[string]bool{}
+	for _, l := range ls {
+		if !strings.HasPrefix(l, "#") {
+			set[l] = true
+			continue
+		}
+		j := 1
+		for j < len(l) && l[j] >= '0' && l[j] <= '9' {
+			j++
+		}
+		idx, err := strconv.Atoi(l[1:j])
+		if err != nil || idx >= len(cx.site.Call.Args) {
+			set[l] = true
+			continue
+		}
+		for _, pl := range leavesCx(cx.site.Call.Args[idx], cx.parent) {
+			set[pl+l[j:]] = true
+		}
+	}
+	var out []string
+	for l := range set {
+		out = append(out, l)
+	}
+	sort.Strings(out)
 	return out
 }
